@@ -42,7 +42,7 @@ type c28case struct {
 	Disable bool   `json:"disable_retry"`
 }
 
-// reply alphabet: T transport error, L -LOADING, A -TRYAGAIN, D -CLUSTERDOWN, E -ERR generic, N nil, O ok
+// reply alphabet: T transport error, L -LOADING, A -TRYAGAIN, D -CLUSTERDOWN, E -ERR generic, N nil, O ok (+ X aborted EXEC for DoCache)
 const c28alpha = "TLADENO"
 
 func c28delay(kind string) RetryDelayFn {
@@ -151,6 +151,9 @@ func c28reply(sym byte, k int) RedisResult {
 		return NewResult(strmsg(typeSimpleErr, "ERR generic #"+n), nil)
 	case 'N':
 		return NewResult(RedisMessage{typ: typeNull}, nil)
+	case 'X':
+		// what the pipe returns when the server aborted the MULTI..EXEC wrapper of a client-side-caching read
+		return NewErrorResult(ErrDoCacheAborted)
 	}
 	return NewResult(strmsg(typeSimpleString, "ok #"+n), nil)
 }
@@ -261,6 +264,13 @@ func (e *c28env) connFn(dst string, _ *ClientOption) conn {
 		return res
 	}
 	m.DoCacheFn = func(cmd Cacheable, _ time.Duration) RedisResult { return e.user(cmd.Commands()) }
+	m.DoMultiCacheFn = func(multi ...CacheableTTL) *redisresults {
+		res := &redisresults{s: make([]RedisResult, len(multi))}
+		for i, c := range multi {
+			res.s[i] = e.user(c.Cmd.Commands())
+		}
+		return res
+	}
 	m.ReceiveFn = func(_ context.Context, sub Completed, _ func(PubSubMessage)) error {
 		return e.user(sub.Commands()).Error()
 	}
@@ -406,6 +416,12 @@ func c28run(r *vrun.Run, c *c28case, pool map[string]*c28sys) {
 			default:
 				shown = "transport:" + err.Error()
 			}
+		case "DoMultiCache":
+			multi := make([]CacheableTTL, len(c.Batch))
+			for i := range multi {
+				multi[i] = CT(cl.B().Get().Key(keyOf(i)).Cache(), time.Minute)
+			}
+			shown = c28show(cl.DoMultiCache(ctx, multi...)[c.Fault])
 		case "DoMulti":
 			multi := make([]Completed, len(c.Batch))
 			for i := range multi {
@@ -543,6 +559,8 @@ func c28name(sym byte) string {
 		return "-ERR"
 	case 'N':
 		return "nil reply"
+	case 'X':
+		return "aborted EXEC (ErrDoCacheAborted)"
 	}
 	return "ok"
 }
@@ -580,11 +598,21 @@ func TestVerif_C28(t *testing.T) {
 				}
 			}
 		}
+		// DoCache only: X = the server aborted the caching transaction (a reply of the server, neither a transport error nor LOADING)
+		var scriptsX []string
+		xa := c28alpha + "X"
+		for a := 0; a < len(xa); a++ {
+			for b := 0; b < len(xa); b++ {
+				for d := 0; d < len(xa); d++ {
+					scriptsX = append(scriptsX, string([]byte{xa[a], xa[b], xa[d]}))
+				}
+			}
+		}
 		type shape struct {
 			api, batch string
 			fault      int
 		}
-		shapes := []shape{{"Do", "r", 0}, {"Do", "w", 0}, {"Do", "W", 0}, {"DoCache", "c", 0}, {"Receive", "s", 0}}
+		shapes := []shape{{"Do", "r", 0}, {"Do", "w", 0}, {"Do", "W", 0}, {"DoCache", "c", 0}, {"Receive", "s", 0}, {"DoMultiCache", "c", 0}, {"DoMultiCache", "cc", 1}}
 		for _, b := range []string{"r", "w", "W", "rr", "rw", "wr", "Wr", "rW"} {
 			for f := range b {
 				shapes = append(shapes, shape{"DoMulti", b, f})
@@ -623,7 +651,11 @@ func TestVerif_C28(t *testing.T) {
 								if quick && cls && (delay != "zero" || cancel) {
 									continue // quick tier: closing cases (fresh client each) only with the most permissive delay and a live context
 								}
-								for _, sc := range scripts {
+								scs := scripts
+								if sh.api == "DoCache" || sh.api == "DoMultiCache" {
+									scs = scriptsX
+								}
+								for _, sc := range scs {
 									c := &c28case{Mode: mode, API: sh.api, Batch: sh.batch, Fault: sh.fault, Script: sc, Delay: delay, Cancel: cancel, Close: cls, Disable: disable}
 									r.Evaluations++
 									id := c28json(c)
